@@ -305,14 +305,18 @@ def run (ctx):
     rer = [h for h in hs if h.ast.type is not None and norm(h.ast.type) == 'ReventError']
     okr = bool(rer) and any(isinstance(s_, ast.Raise) and s_.exc is None for s_ in rer[0].ast.body) and hs.index(rer[0]) < (hs.index(catch_all[0]) if catch_all else 99)
     # or: the catch-all itself sorts ReventError out and re-raises it
-    guarded_reraise = []
+    guarded_reraise = []; other_reraise = []
     for h in catch_all:
       ids_ = set(id(x) for b_ in h.ast.body for x in ast.walk(b_))
       for rn_ in [x for x in ng.nodes if x.kind == 'raise_stmt' and id(x.ast) in ids_]:
-        if any(f_.startswith('isinstance(') and 'ReventError' in f_ and f_.endswith(':truthy') for f_ in q.fact_strs(ng, rn_)) and (rn_.ast.exc is None or (h.ast.name and norm(rn_.ast.exc) == h.ast.name)):
+        if any((f_.startswith('isinstance(') or f_.startswith('issubclass(')) and 'ReventError' in f_ and f_.endswith(':truthy') for f_ in q.fact_strs(ng, rn_)) and (rn_.ast.exc is None or (h.ast.name and norm(rn_.ast.exc) == h.ast.name)):
           guarded_reraise.append(rn_)
+        elif rn_.ast.exc is None:
+          other_reraise.append(rn_)
     okr = okr or bool(guarded_reraise)
-    ctx.ob('R-CONTAIN', rne, "undeclared-event errors still surface", okr, "except ReventError: raise precedes the catch-all" if okr else "ReventError is swallowed", (mod, n.ast), 'D6')
+    # a bare re-raise under some other condition may sort the error out in a way not modelled: undecided, not violated
+    if not okr and other_reraise: okr = None
+    ctx.ob('R-CONTAIN', rne, "undeclared-event errors still surface", okr, "except ReventError: raise precedes the catch-all" if okr else ("ReventError is swallowed" if okr is False else "the catch-all re-raises under a condition that is not recognised as selecting ReventError"), (mod, n.ast), 'D6')
     for h in catch_all:
       reraise = [s_ for s_ in ast.walk(h.ast) if isinstance(s_, ast.Raise) and not any(s_ is g_.ast for g_ in guarded_reraise)]
       ctx.ob('R-CONTAIN', rne, "the catch-all does not re-raise", not reraise, "no raise in the handler" if not reraise else "catch-all handler re-raises", (mod, h.ast), 'D6')
@@ -395,6 +399,31 @@ def run (ctx):
   good = bool(rt) and all(norm(r.value) in ('(eventType, eid)',) for r in rt)
   ctx.ob('R-AGREE', add, "addListener returns the (type, eid) pair removeListener accepts", good, norm(rt[0].value) if rt else "", add, 'D7')
 
+  # a weak subscription's handler is called through the proxy: what the handler returns (halt / unsubscribe requests) must come
+  # back out of the proxy
+  pc = cp.methods.get('__call__')
+  if pc is not None:
+    ctx.analysed(pc); gpc = q.cfg_of(pc)
+    fw = [n_ for n_ in gpc.nodes if any(isinstance(c_.func, ast.Attribute) and c_.func.attr == 'method' and norm(c_.func.value) == 'self' for c_ in q.node_calls(n_))]
+    ctx.floor('proxy forwarding call', len(fw), 1)
+    for n_ in fw:
+      c_ = [c_ for c_ in q.node_calls(n_) if isinstance(c_.func, ast.Attribute) and c_.func.attr == 'method'][0]
+      if isinstance(n_.ast, ast.Return) or n_.kind == 'return': good = True
+      elif isinstance(n_.ast, ast.Assign) and len(n_.ast.targets) == 1 and isinstance(n_.ast.targets[0], ast.Name):
+        nm_ = n_.ast.targets[0].id
+        rets_ = [r_ for r_ in gpc.nodes if r_.kind == 'return' and r_ in gpc.reachable(n_, exc=False)]
+        good = bool(rets_) and all(r_.ast.value is not None and norm(r_.ast.value) == nm_ for r_ in rets_)
+        if good and not q.must_pass_under(repo, mod, gpc, q.Env(), rets_, cp, start=n_)[0]: good = False
+      elif isinstance(n_.ast, ast.Expr): good = False
+      else: good = None
+      ctx.ob('R-AGREE', pc, "the proxy hands back what the handler returned", good, "return self.method(...)" if good else
+             "CallProxy.__call__ calls the handler and drops its result: a weakly subscribed handler that returns EventHalt / False / EventRemove no longer halts delivery or unsubscribes itself", (mod, c_), 'D7')
+  # argument names bound crosswise to a callee's parameters of those very names (f(weak, priority) into def f(priority, weak))
+  for f_, c_, callee_, pairs_ in q.crossed_arguments(repo, mod):
+    ctx.bad('R-AGREE', f_, "`%s` passes each value to the parameter of its name" % norm(c_)[:60],
+            "%s: the call binds %s - e.g. a requested priority arrives as the `weak` flag (any non-zero priority makes the subscription weak and unordered) and weak=True becomes priority 1"
+            % (callee_.qual, ", ".join("argument `%s` to parameter `%s`" % (a_, p_) for a_, p_ in pairs_[:2])), (mod, c_), 'D8')
+  ctx.stat('crossed-argument scan', 1)
   # ---- D8 by-name wiring ---------------------------------------------------------------------------
   ab = mod.funcs.get('autoBindEvents')
   if ab is None: raise AnalysisError("autoBindEvents vanished")
